@@ -2,7 +2,7 @@
 Lemmas for `C03_honest_wins_partial`: the detection loop of
 `getUncheckpointedCFHeaders` removes and bans exactly the peers with a false
 filter hash, never an honest one, provided the round is not of the
-`shapeEarlyReturn` (F12) shape and nobody advertises the zero hash.
+`shapeEarlyReturn` (F12) shape.
 Core Lean only.
 -/
 import Neutrino.Lemmas.CFHeaders
@@ -55,35 +55,41 @@ theorem mem_filtersAt (s : St) (net : Net) (h : Nat) (x : Peer × FHash) (hx : x
   obtain ⟨q, _, f, hf, rfl⟩ := hx
   exact hf
 
-/-- no mismatch seen, nobody advertises zero ⇒ everybody advertises the same value -/
-theorem mismatchGo_false (i : Nat) : ∀ (L : List (Peer × Msg)) (acc : FHash),
+/-- no mismatch seen ⇒ everybody advertises the same value -/
+theorem mismatchGo_false (i : Nat) : ∀ (L : List (Peer × Msg)) (acc : Option FHash),
     mismatchGo i acc L = false →
-    (∀ pm ∈ L, ∃ f, pm.2.hashes[i]? = some f ∧ f ≠ 0) →
-    ∃ v, (acc ≠ 0 → v = acc) ∧ ∀ pm ∈ L, pm.2.hashes[i]? = some v := by
+    (∀ pm ∈ L, ∃ f, pm.2.hashes[i]? = some f) →
+    ∃ v, (∀ a, acc = some a → v = a) ∧ ∀ pm ∈ L, pm.2.hashes[i]? = some v := by
   intro L
   induction L with
-  | nil => intro acc _ _; exact ⟨acc, fun _ => rfl, fun _ h => absurd h (List.not_mem_nil)⟩
+  | nil =>
+    intro acc _ _
+    refine ⟨acc.getD 0, ?_, fun _ h => absurd h (List.not_mem_nil)⟩
+    intro a ha; rw [ha]; rfl
   | cons pm L ih =>
     intro acc hm hall
-    obtain ⟨f, hf, hf0⟩ := hall pm (List.mem_cons_self)
-    have hall' : ∀ pm ∈ L, ∃ f, pm.2.hashes[i]? = some f ∧ f ≠ 0 :=
+    obtain ⟨f, hf⟩ := hall pm (List.mem_cons_self)
+    have hall' : ∀ pm ∈ L, ∃ f, pm.2.hashes[i]? = some f :=
       fun x hx => hall x (List.mem_cons_of_mem _ hx)
     simp only [mismatchGo, hf] at hm
-    by_cases ha : acc = 0
-    · simp only [ha, ↓reduceIte] at hm
-      obtain ⟨v, hv, hall2⟩ := ih f hm hall'
-      have hvf : v = f := hv hf0
-      refine ⟨v, fun h => absurd ha h, ?_⟩
+    cases acc with
+    | none =>
+      simp only at hm
+      obtain ⟨v, hv, hall2⟩ := ih (some f) hm hall'
+      have hvf : v = f := hv f rfl
+      refine ⟨v, ?_, ?_⟩
+      · intro a ha; exact absurd ha (by simp)
       intro x hx
       rcases List.mem_cons.mp hx with rfl | hx
       · rw [hf, hvf]
       · exact hall2 x hx
-    · simp only [ha, ↓reduceIte] at hm
-      by_cases haf : acc = f
+    | some a =>
+      simp only at hm
+      by_cases haf : a = f
       · simp only [haf, ne_eq, not_true_eq_false, ↓reduceIte] at hm
-        obtain ⟨v, hv, hall2⟩ := ih f hm hall'
-        have hvf : v = f := hv hf0
-        refine ⟨v, fun _ => by rw [hvf, haf], ?_⟩
+        obtain ⟨v, hv, hall2⟩ := ih (some f) hm hall'
+        have hvf : v = f := hv f rfl
+        refine ⟨v, fun a' ha' => by rw [hvf, ← haf]; exact Option.some.inj ha', ?_⟩
         intro x hx
         rcases List.mem_cons.mp hx with rfl | hx
         · rw [hf, hvf]
@@ -91,9 +97,9 @@ theorem mismatchGo_false (i : Nat) : ∀ (L : List (Peer × Msg)) (acc : FHash),
       · simp only [ne_eq, haf, not_false_eq_true, ↓reduceIte] at hm
         exact absurd hm (by decide)
 
-/-- everybody advertises the same non-zero value ⇒ no mismatch seen -/
-theorem mismatchGo_all_eq (i : Nat) (v : FHash) (hv : v ≠ 0) : ∀ (L : List (Peer × Msg)) (acc : FHash),
-    (acc = 0 ∨ acc = v) → (∀ pm ∈ L, pm.2.hashes[i]? = some v) → mismatchGo i acc L = false := by
+/-- everybody advertises the same value ⇒ no mismatch seen -/
+theorem mismatchGo_all_eq (i : Nat) (v : FHash) : ∀ (L : List (Peer × Msg)) (acc : Option FHash),
+    (acc = none ∨ acc = some v) → (∀ pm ∈ L, pm.2.hashes[i]? = some v) → mismatchGo i acc L = false := by
   intro L
   induction L with
   | nil => intro acc _ _; rfl
@@ -103,10 +109,10 @@ theorem mismatchGo_all_eq (i : Nat) (v : FHash) (hv : v ≠ 0) : ∀ (L : List (
     have hall' : ∀ pm ∈ L, pm.2.hashes[i]? = some v := fun x hx => hall x (List.mem_cons_of_mem _ hx)
     simp only [mismatchGo, hf]
     rcases hacc with ha | ha
-    · simp only [ha, ↓reduceIte]; exact ih v (Or.inr rfl) hall'
+    · subst ha; exact ih (some v) (Or.inr rfl) hall'
     · subst ha
-      simp only [hv, ↓reduceIte, ne_eq, not_true_eq_false]
-      exact ih acc (Or.inr rfl) hall'
+      simp only [ne_eq, not_true_eq_false, ↓reduceIte]
+      exact ih (some v) (Or.inr rfl) hall'
 
 theorem heightOf_getElem : ∀ (l : List Blk) (e : Nat) (b : Blk), l.Nodup → l[e]? = some b →
     heightOf l b = some e := by
@@ -137,16 +143,15 @@ structure HW (r : Round) : Prop where
   prov : ∀ p ∈ r.peers, r.liar p = true → r.provable p = true
   tv   : ∀ i, i < r.n → r.verify (r.truth (r.start + i)) (r.start + i) ≠ .bad
   fe   : ∀ i, i < r.n → r.getBlock (r.start + i) = true
-  nz   : ∀ p ∈ r.peers, ∀ i, i < r.n → r.hashAt p i ≠ some 0
   ns   : r.shapeEarlyReturn = false
 
-theorem HW.of_bool (r : Round) (h1 : r.hyp = true) (h2 : r.shapeEarlyReturn = false) (h3 : r.noZero = true) :
+theorem HW.of_bool (r : Round) (h1 : r.hyp = true) (h2 : r.shapeEarlyReturn = false) :
     HW r := by
   unfold Round.hyp at h1
   simp only [Bool.and_eq_true, List.any_eq_true, List.all_eq_true, Bool.or_eq_true,
     Bool.not_eq_eq_eq_not, Bool.not_true] at h1
   obtain ⟨⟨⟨⟨p0, hp0, hh⟩, hprov⟩, htv⟩, hfe⟩ := h1
-  refine ⟨⟨p0, hp0, hh⟩, ?_, ?_, ?_, ?_, h2⟩
+  refine ⟨⟨p0, hp0, hh⟩, ?_, ?_, ?_, h2⟩
   · intro p hp hl
     rcases hprov p hp with h | h
     · rw [hl] at h; exact absurd h (by decide)
@@ -159,10 +164,6 @@ theorem HW.of_bool (r : Round) (h1 : r.hyp = true) (h2 : r.shapeEarlyReturn = fa
     unfold Round.fetchable at hfe
     simp only [List.all_eq_true, List.mem_range] at hfe
     exact hfe i hi
-  · intro p hp i hi
-    unfold Round.noZero at h3
-    simp only [List.all_eq_true, List.mem_range, bne_iff_ne, ne_eq] at h3
-    exact h3 p hp i hi
 
 /-- an entry of the header map: a connected peer, its accepted message, starting from our tip -/
 def Good (r : Round) (pm : Peer × Msg) : Prop :=
@@ -178,15 +179,11 @@ theorem Good.responding {r : Round} {pm : Peer × Msg} (g : Good r pm) : r.respo
 theorem Good.len {r : Round} {pm : Peer × Msg} (g : Good r pm) : pm.2.hashes.length = r.n := by
   have := g.2.1; unfold Round.msgOf at this; exact accept_some this
 
-theorem Good.some {r : Round} {pm : Peer × Msg} (g : Good r pm) (hw : HW r) (i : Nat) (hi : i < r.n) :
-    ∃ f, pm.2.hashes[i]? = some f ∧ f ≠ 0 := by
+theorem Good.some {r : Round} {pm : Peer × Msg} (g : Good r pm) (i : Nat) (hi : i < r.n) :
+    ∃ f, pm.2.hashes[i]? = some f := by
   have hl := g.len
   have hlt : i < pm.2.hashes.length := by omega
-  refine ⟨pm.2.hashes[i], List.getElem?_eq_getElem hlt, ?_⟩
-  intro h0
-  have := hw.nz pm.1 g.1 i hi
-  rw [g.hashAt, List.getElem?_eq_getElem hlt, h0] at this
-  exact this rfl
+  exact ⟨pm.2.hashes[i], List.getElem?_eq_getElem hlt⟩
 
 theorem honest_at {r : Round} {p : Peer} (h : r.honest p = true) (i : Nat) (hi : i < r.n) :
     r.hashAt p i = some (r.truth (r.start + i)) ∧ r.served p (r.start + i) = some (r.truth (r.start + i)) := by
@@ -209,25 +206,21 @@ theorem falseAt_iff {r : Round} {pm : Peer × Msg} (g : Good r pm) (i : Nat) (f 
 /-! ### one call of `detectBadPeers` -/
 
 /-- some entry is false at `i` whenever a mismatch is seen and an honest entry is present -/
-theorem exists_false_of_mismatch {r : Round} (hw : HW r) (hs : List (Peer × Msg)) (i : Nat) (hi : i < r.n)
+theorem exists_false_of_mismatch {r : Round} (_hw : HW r) (hs : List (Peer × Msg)) (i : Nat) (hi : i < r.n)
     (hgood : ∀ pm ∈ hs, Good r pm) (hm : mismatch hs i = true) :
     ∃ pm ∈ hs, r.falseAt pm.1 i = true := by
   apply Classical.byContradiction
   intro hno
   have hall : ∀ pm ∈ hs, pm.2.hashes[i]? = some (r.truth (r.start + i)) := by
     intro pm hpm
-    obtain ⟨f, hf, _⟩ := (hgood pm hpm).some hw i hi
+    obtain ⟨f, hf⟩ := (hgood pm hpm).some i hi
     have : ¬ r.falseAt pm.1 i = true := fun h => hno ⟨pm, hpm, h⟩
     rw [falseAt_iff (hgood pm hpm) i f hf] at this
     rw [hf, Classical.not_not.mp this]
   cases hs with
   | nil => simp [mismatch, mismatchGo] at hm
   | cons pm0 rest =>
-    obtain ⟨f, hf, hf0⟩ := (hgood pm0 List.mem_cons_self).some hw i hi
-    have hft : f = r.truth (r.start + i) := by
-      have := hall pm0 List.mem_cons_self
-      rw [hf] at this; exact Option.some.inj this
-    have := mismatchGo_all_eq i (r.truth (r.start + i)) (hft ▸ hf0) (pm0 :: rest) 0 (Or.inl rfl) hall
+    have := mismatchGo_all_eq i (r.truth (r.start + i)) (pm0 :: rest) none (Or.inl rfl) hall
     unfold mismatch at hm
     rw [this] at hm
     exact absurd hm (by decide)
@@ -307,7 +300,7 @@ theorem detect_sound {r : Round} (hw : HW r) (net : Net) (s' : St) (hs : List (P
       · rw [hf] at h; exact absurd h (by decide)
       · unfold Round.provableAt at h
         simp only [hnone pm hpm, Bool.false_or] at h
-        obtain ⟨f, hfs, _⟩ := g.some hw i hi
+        obtain ⟨f, hfs⟩ := g.some i hi
         rw [g.hashAt, hfs] at h
         simp only [beq_iff_eq] at h
         -- not phase-1 bad: serves exactly f
@@ -488,9 +481,9 @@ theorem idxLoop_sound {r : Round} (hw : HW r) (net : Net)
       intro pm hpm j hj
       rcases List.mem_cons.mp hj with rfl | hj
       · -- no mismatch and an honest entry: everybody advertises the truth at j
-        have hsome : ∀ pm ∈ hs, ∃ f, pm.2.hashes[j]? = some f ∧ f ≠ 0 :=
-          fun pm hpm => (hgood pm hpm).some hw j hi
-        obtain ⟨v, _, hall⟩ := mismatchGo_false j hs 0 hm' hsome
+        have hsome : ∀ pm ∈ hs, ∃ f, pm.2.hashes[j]? = some f :=
+          fun pm hpm => (hgood pm hpm).some j hi
+        obtain ⟨v, _, hall⟩ := mismatchGo_false j hs none hm' hsome
         obtain ⟨pmh, hpmh, hh⟩ := hhon
         have hvt : v = r.truth (r.start + j) := by
           have h1 := (honest_at hh j hi).1
@@ -572,11 +565,10 @@ theorem map_fst_pair (l : List Peer) (reason : Nat) :
 
 theorem honest_wins_round (H : FHash → Hdr → Hdr) (s : St) (net : Net) (truth : Nat → FHash)
     (hi : Inv H s) (hnd : s.blocks.Nodup) (hahead : s.fstore.length < s.blocks.length)
-    (h1 : (roundOf s net truth).hyp = true) (h2 : (roundOf s net truth).shapeEarlyReturn = false)
-    (h3 : (roundOf s net truth).noZero = true) :
+    (h1 : (roundOf s net truth).hyp = true) (h2 : (roundOf s net truth).shapeEarlyReturn = false) :
     (roundOf s net truth).concl H ((tipRound H s net).1.fstore.drop s.fstore.length)
       (newBans s (tipRound H s net).1) = true := by
-  have hw := HW.of_bool _ h1 h2 h3
+  have hw := HW.of_bool _ h1 h2
   have hflen : 1 ≤ s.fstore.length := by
     cases hf : s.fstore with
     | nil => exact absurd hf hi.ne
